@@ -25,13 +25,19 @@ LEVEL_TEXT = ("Lean theorems over all event histories of one object in one proce
               "which reproduces on the real code (known finding F9). Model tied to the code per cycle on seeded simulations.")
 THEOREMS = [("Kopf.Props.C14", "Kopf.C14." + n) for n in [
     "invoked_gated", "resume_invoked_only_initial", "not_for_new", "after_fully_handled_never",
-    "resume_never_again_partial", "completed_never_again_partial", "eligible_selected", "reason_not_noop_of_initial", "flipflop_reruns_witness"]]
+    "resume_never_again_partial", "completed_never_again_partial", "eligible_selected", "eligible_invoked", "reason_not_noop_of_initial", "flipflop_reruns_witness"]]
 RULE = ("seeded scenarios: objects handled by a first incarnation, then stop/kill + restart; 1-3 resume handlers (label filters, "
         "deleted opt-in, failures/retries) next to create/update/delete handlers; re-listings (history compaction + 410), "
         "stream reconnects, edits and label flip-flops before/during/after the resume cycle, deletions; one case = one processing "
         "cycle; distinct & non-trivial = distinct (memory flags, reason, selected kinds, outcome shape) with a resume handler selected or gated out")
 TRUSTED = c02.TRUSTED
-ASSUMPTIONS = ["filters (`registries.match`) enter the model as the observed per-handler match result (C15's subject)"]
+ASSUMPTIONS = ["filters (`registries.match`) enter the model as the observed per-handler match result (C15's subject)",
+               "`C14.run` threads the progress records functionally: every write of a cycle is assumed persisted and visible to the "
+               "next event (no lost patch, no stale view after the consistency timeout, no kill between a handler call and its "
+               "patch); outside that, a completed resume handler can run again exactly as C02's `stale_view_reruns` shows — the "
+               "property's quantifier does not range over those environments, the closed-loop oracle does exercise kills/restarts",
+               "`eligible_invoked` is proved for the all-at-once lifecycle; for one-by-one/asap only selection (`eligible_selected`) "
+               "and C03's eventual completion apply"]
 
 F9_SIG = {"site": "process_changing_cause", "shape": "completed resume handler re-run after its finished record was purged in an open cycle in which the handler was not selected"}
 
